@@ -541,6 +541,55 @@ fn one_case(ctx: &Ctx, case: u64, l: &mut Local) {
             structural(&mut j, &format!("resigned-with-key-announced-in-header-{}", ha.name()), Some(forged), &fixed);
         }
     }
+    // ---- claims replicated as header parameters (RFC 7519 §5.3): a header `iss` that names another
+    // issuer must not redirect the key look-up; the resolver is asked for the PAYLOAD's iss
+    if t.kb.is_none() && t.iss.ends_with("/A") {
+        let payload: Value = t.parts.payload().unwrap_or(Value::Null);
+        for (k, hdr) in [
+            json!({"alg": alg.name(), "iss": "https://issuer.example/B"}),
+            json!({"alg": alg.name(), "iss": "https://issuer.example/B", "sub": "x", "aud": "y"}),
+            json!({"alg": alg.name(), "issuer": "https://issuer.example/B", "iss ": "https://issuer.example/B"}),
+        ].iter().enumerate() {
+            let mut q = t.parts.clone();
+            q.jwt = api::sign_raw(hdr, &payload, alg.jwt(), &keys::issuer_enc(alg, 1));
+            let v = verify_parts(&t, &q, &Resolver::ByIss(alg));
+            if let Some(v) = &v {
+                if let Some(c) = v.resolver_calls.first() {
+                    if c.iss != t.iss {
+                        j.l.violate(Violation { subcheck: "resolver-invocation".into(), class: "iss replicated in the header".into(), observed: "resolver asked for the header's iss instead of the payload's".into(), case, detail: json!({"payload_iss": t.iss, "header": hdr, "resolver_was_asked_for": c.iss}) });
+                    }
+                }
+            }
+            j.l.count("fault.structural.kind.header-iss-of-other-issuer");
+            j.l.distinct(crate::rng::mix(case ^ gen::hash_str("hdr-iss") ^ k as u64));
+            j.reject("structural", &format!("signed by issuer B's key, header iss says B, payload iss says A ({} {})", alg.name(), fmt.name()), v, || json!({"header": hdr}));
+        }
+    }
+    // ---- transfer encodings of single characters: a parser that "repairs" percent-escapes, the
+    // standard base64 alphabet, HTML entities or '+' for blank would restore the signed text
+    {
+        let jwt = &t.parts.jwt;
+        let mut variants: Vec<(String, String)> = vec![];
+        let pos = r.usize(jwt.len());
+        let c = jwt.as_bytes()[pos];
+        variants.push(("percent-escape of one character".into(), format!("{}%{:02X}{}", &jwt[..pos], c, &jwt[pos + 1..])));
+        variants.push(("percent-escape (lower case) of one character".into(), format!("{}%{:02x}{}", &jwt[..pos], c, &jwt[pos + 1..])));
+        variants.push(("percent-escape of the dots".into(), jwt.replace('.', "%2E")));
+        variants.push(("percent-escape of the first dot".into(), jwt.replacen('.', "%2e", 1)));
+        variants.push(("html entity for a dot".into(), jwt.replacen('.', "&#46;", 1)));
+        variants.push(("backslash-u escape of one character".into(), format!("{}\\u{:04x}{}", &jwt[..pos], c, &jwt[pos + 1..])));
+        if jwt.contains('-') {
+            variants.push(("'-' written as '+' (standard alphabet)".into(), jwt.replacen('-', "+", 1)));
+            variants.push(("every '-' written as '+'".into(), jwt.replace('-', "+")));
+        }
+        if jwt.contains('_') {
+            variants.push(("'_' written as '/' (standard alphabet)".into(), jwt.replacen('_', "/", 1)));
+            variants.push(("standard alphabet throughout".into(), jwt.replace('-', "+").replace('_', "/")));
+        }
+        for (name, v) in variants {
+            structural(&mut j, &format!("transfer-encoding: {name}"), Some(v), &fixed);
+        }
+    }
     // ---- a key announced in the token's own iss (did:jwk, JWK text, data: URL, thumbprint-like)
     // must never be used: the only source of the verification key is the resolver
     {
